@@ -2,12 +2,40 @@
 
 Execution-graph correspondence (real ExecutionGraph driven by the scripted
 scheduler vs Model/Exec.lean, state compared after every operation) and the
-C06 monitor of harness/execsim.py evaluated on the real traces."""
+C06 monitor of harness/execsim.py evaluated on the real traces; then whole
+commands: generated studies (a third of the steps with a restart command) run
+through Conductor / `maestro run -fg -r N` / `maestro run -r N` + `conductor`
+with time-outs among the scheduler's answers - the limit the user asked for is
+the one that must bound every instance's restart rounds."""
+import os
+import shutil
+
+import condsim
 import execprop
+from corr import Case, compare, judge, account
 
 LEVEL = "proof"
-RULE = execprop.RULE
+RULE = (execprop.RULE + "; plus conductor-level runs of generated studies (restart limit in {0,1,2}) entered through "
+        "Conductor / `maestro run -fg` / `maestro run`+`conductor`")
 
 
 def run(ctx, escalated=False):
-    execprop.run(ctx, "C06", escalated)
+    quick = ctx.tier == "quick" and not escalated
+    cases = execprop.run(ctx, "C06", escalated, finish=False)
+    extra = []
+    for k in range(120 if quick else 3000):
+        r = condsim.run(ctx, ctx.rng, k, entry=("direct", "fg", "bg")[k % 3], timeouts=0.45, max_polls=80)
+        if r is None:
+            continue
+        extra.append(Case({"kind": "conductor", "spec": r["spec"], "polls": r["polls"], "returned": r["ret"],
+                           "entry": r["entry"], "options": r["options"]}, [], [], r["mon"]["C06"][:3],
+                          r["options"]["rlimit"] > 0))
+        ctx.count("conductor-rlimit:%d" % r["options"]["rlimit"])
+        if k % 30 == 29:
+            shutil.rmtree(os.path.join(ctx.scratch, "cond"), ignore_errors=True)
+    import scripted as S
+    S.install()
+    cases = cases + extra
+    diffs = compare([c for c in cases if c.lines])
+    account(ctx, extra)
+    judge(ctx, cases, diffs, "execution-graph+conductor", shrink=execprop.shrink_factory(ctx, "C06"))
